@@ -52,6 +52,9 @@ func vContains(s, sub string) bool {
 // and tracking on / off, the PASS line written or its write failing, lines
 // received, disconnect) nothing handed to the logger contains the password;
 // the PASS line appears only masked.
+// vC20Caps: the capabilities a server in common use offers (the client asks for those it wants).
+const vC20Caps = "account-notify account-tag away-notify batch cap-notify chghost echo-message extended-join invite-notify labeled-response message-tags multi-prefix server-time setname userhost-in-names"
+
 func VerifC20Password() {
 	lg := &vLog{}
 	logging.SetLogger(lg)
@@ -63,9 +66,9 @@ func VerifC20Password() {
 		// (a space too, but not in first position: a password that is a space occurs in every record)
 		sp := byte(' ')
 		if i == 0 {
-			sp = '3'
+			sp = '5'
 		}
-		vAssume(b-'3' < 7 || b == '#' || b == '$' || b == '~' || b == '^' || b == '_' || b == '=' || b == '+' || b == '@' || b == '?' || b == sp)
+		vAssume(b-'5' < 5 || b == '#' || b == '$' || b == '~' || b == '^' || b == '_' || b == '=' || b == '+' || b == '?' || b == sp)
 	}
 	pw := sym
 	if vParam("LONG", 0) == 1 {
@@ -86,8 +89,19 @@ func VerifC20Password() {
 	failAt := vLen("failwrite", 0, 4) - 1
 	d := &vDialer{fail: vLen("dialfails", 0, 1) == 1}
 	slow := vLen("slowpeer", 0, 1) == 1 // the peer starts reading only after Connect has returned
+	// what the server says: a plain welcome; a nick collision before the welcome; a capability
+	// negotiation in which it offers and acknowledges the IRCv3 capabilities in common use
+	script := vLen("script", 0, 2)
 	for r := 0; r < rounds; r++ {
-		w := vNewLiveWire(":srv NOTICE * :hello\r\n", ":srv 001 me :welcome\r\n", "garbage \r\n")
+		var w *vWire
+		switch script {
+		case 0:
+			w = vNewLiveWire(":srv NOTICE * :hello\r\n", ":srv 001 me :welcome\r\n", "garbage \r\n")
+		case 1:
+			w = vNewLiveWire(":srv 433 * me :Nickname is already in use\r\n", ":srv 001 mf :welcome\r\n", ":mf!ident@h NICK me\r\n")
+		default:
+			w = vNewLiveWire(":srv CAP * LS :"+vC20Caps+"\r\n", ":srv CAP me ACK :"+vC20Caps+"\r\n", ":srv 001 me :welcome\r\n", ":srv CAP me NEW :"+vC20Caps+"\r\n")
+		}
 		w.failWriteAt = failAt
 		if slow {
 			w.writeGate = make(chan struct{}, 64)
